@@ -364,6 +364,24 @@ def eval_block(block, acc):
     ents = C.entries()
     kind = block[0]
     quick = block[-1]
+    if kind == "afterfail":
+        # ~1,000 operations that fail inside a group, then every keyword-constructible definition is rebuilt
+        # from its reported values in the same process
+        from mc import failops
+        acc.extra["failing_operations"] += failops.run_failing_operations()
+        for e in ents:
+            if not e.routed or C.invalid_types(e.pdict) or K.route_kwargs(e) is None:
+                continue
+            pl = C.build_payload(e, lambda x: 2, 0, bg)
+            if pl is None:
+                continue
+            for pbf in (True, False):
+                st, out = judge_rebuild(e, pl, pbf)
+                acc.evaluations += 1
+                acc.outcomes[("afterfail", st)] += 1
+                for key, detail in out:
+                    acc.violation(key, {"kind": "rebuild", "entry": e.label, "payload": pl.hex(), "pbf": int(pbf)}, detail)
+        return
     if kind == "pair":
         e = ents[block[1]]
         run_pair(e, block[2], quick, acc)
@@ -387,6 +405,7 @@ def run_tier(tier, t0):
     blocks = [("pair", i, fname, q) for (t, s), (i, fname, _) in sorted(pairs.items(), key=lambda kv: (kv[0][0], str(kv[0][1])))]
     idx = list(range(len(ents)))
     blocks += [("entries", idx[i::96], q) for i in range(96)]
+    blocks += [("afterfail", q)]
     acc = engine.sweep(blocks, eval_block)
     nkw = sum(1 for e in ents if e.routed and not C.invalid_types(e.pdict) and K.route_kwargs(e) is not None)
     engine.finish(
